@@ -12,7 +12,8 @@ V == Lit(S("?"))      \* placeholder: replaced by the line number of its stateme
 Names2 == {"a", "b"}
 Simple == { SVar(n, V) : n \in Names2 } \cup { SVar(n, None) : n \in Names2 }
           \cup { SExpr(Asg(n, V)) : n \in Names2 } \cup { SPrint(Id(n)) : n \in Names2 }
-          \cup { SVar(n, Bin("+", Id(m), V)) : n \in Names2, m \in Names2 }     \* the initialiser is evaluated before the name is bound
+          \cup { SVar(n, Bin("+", Id(m), V)) : n \in Names2, m \in Names2 }
+          \cup { SVarList(<<SVar("a", V), SVar("b", V)>>), SVarList(<<SVar("b", V), SVar("a", None)>>) }   \* comma lists declare too     \* the initialiser is evaluated before the name is bound
 CallF == SExpr(Call(Id("f"), <<>>))
 Once(body) == SBlock(<< SVar("q", Lit(N(0))),
                         SWhile(Bin("<", Id("q"), Lit(N(1))), SBlock(<<SExpr(Asg("q", Bin("+", Id("q"), Lit(N(1)))))>> \o body)) >>)
@@ -46,7 +47,7 @@ RECURSIVE InDomain(_)
 InDomainSeq(ss, frozen) ==
    IF ss = <<>> THEN TRUE
    ELSE LET s == Head(ss) IN
-        /\ ~(s.k = "var" /\ s.name \in frozen)
+        /\ ~(s.k = "var" /\ s.name \in frozen) /\ ~(s.k = "varlist" /\ frozen # {})
         /\ InDomain(s)
         /\ InDomainSeq(Tail(ss), IF s.k = "fun" THEN frozen \cup NamesIn(s) ELSE frozen)
 InDomain(t) == CASE t.k \in {"block", "fun", "prog"} -> InDomainSeq(t.c, {})
